@@ -190,7 +190,7 @@ class QUBOContainer:
         result["density"] = (2.0 * nnz) / ((n + 1) * n)
         # result["condition_number"] = np.linalg.cond(matrix)
         # result["distinct_eigenvalues"] = np.unique(np.linalg.eigvals(matrix)).size
-        result["distinct_eigenvalues"] = np.unique(np.diagonal(matrix)).size
+        result["distinct_eigenvalues"] = np.unique(matrix.diagonal()).size
 
         if obj_stats:
             obj_funct = self.get_objective_function_QUBO()
